@@ -1,12 +1,152 @@
 import Driver.Util
-open Drv
+import Faithful.Lib.GsfaIndex
+open Drv Gsfa
 
+/-!
+Model side of the C06 line protocol (one answer line per op line).
+
+Writer-history stream (package gsfa):
+  `case …` | `params B P C K M T R` | `sched lazy|eager|rand <seed>` | `push <slot> <off> <size> <flags> <a,b,…>`
+  | `close` | `get <addr> <limit>`
+The events are applied with `Gsfa.step`; at `close` the recorded event list goes through `Gsfa.index`
+(= `run`, `close`, `buildFrom`, `sealHeads`) with the `Std.HashMap` implementation of the three maps and the
+identity as stand-in for zstd (the theorems hold for every lawful `Z`, and nothing that is compared depends on
+the compressed bytes); `get` is `Gsfa.readerGet`.  The schedule (when `bgRecv` happens) is chosen by `sched`;
+a send on a full channel (capacity `C`) forces a `bgRecv` first.
+
+LinkedLog stream (package linkedlog):
+  `newlog` | `put <addr> <prevoff> <prevsize> z=<hex> <entries oldest first>` | `read <off> <size>`
+`put` is `Gsfa.flushRec` with zstd given by the table of (raw, compressed) pairs seen on the op lines,
+`read` is `Gsfa.readWithSize`.
+-/
 namespace DrvC06
 
-/-- model side of the C06 line protocol: one answer line per op line -/
+abbrev Ah : AccMap := FMap.hm (List Entry) []
+abbrev Rh : RankMap := FMap.hm Nat 0
+abbrev Hh : HeadMap := FMap.hm Ptr Ptr.zero
+
+def Zid : Zstd := ⟨id, some⟩
+
+def showEntry (e : Entry) : String := s!"{e.off.toNat}:{e.size.toNat}:{e.slot.toNat}:{e.flags.toNat}"
+
+def showEntries (es : List Entry) : String := " ".intercalate (es.map showEntry)
+
+def parseEntry (s : String) : Entry :=
+  match s.splitOn ":" with
+  | [a, b, c, d] => ⟨UInt64.ofNat a.toNat!, UInt64.ofNat b.toNat!, UInt64.ofNat c.toNat!, UInt8.ofNat d.toNat!⟩
+  | _ => default
+
+def parseEntries (s : String) : List Entry := if s = "-" then [] else (s.splitOn ",").map parseEntry
+
+def parseAddrs (s : String) : List Nat := if s = "-" then [] else (s.splitOn ",").map String.toNat!
+
+inductive Sched where
+  | lazy | eager | rand (seed : Nat)
+
+structure W where
+  p : Params := ⟨1000, 256, 100000, 500, 100, 10000⟩
+  cap : Nat := 50
+  sched : Sched := .lazy
+  st : St Ah Rh := init
+  evs : Array Ev := #[]
+  idx : Option (LogSt Hh) := none
+  file : Gsfa.Bytes := []
+
+def lcg (x : Nat) : Nat := (x * 6364136223846793005 + 1442695040888963407) % 2 ^ 64
+
+def W.apply (w : W) (ev : Ev) : W := { w with st := step w.p w.st ev, evs := w.evs.push ev }
+
+/-- background events the schedule inserts after a client event -/
+partial def W.bg (w : W) : W :=
+  match w.sched with
+  | .lazy => w
+  | .eager => if w.st.chan.isEmpty then w else (w.apply .bgRecv).bg
+  | .rand seed =>
+    let s' := lcg seed
+    let w := { w with sched := .rand s' }
+    if (s' / 2 ^ 33) % 2 = 0 ∨ w.st.chan.isEmpty then w else (w.apply .bgRecv).bg
+
+def W.push (w : W) (c : PushCall) : W := Id.run do
+  let mut w := (w.apply (.begin c.slot)).bg
+  for ev in (clientEvents c).drop 1 do
+    -- a send on a full channel blocks until the goroutine has received one batch
+    if w.st.chan.length ≥ w.cap then w := w.apply .bgRecv
+    w := (w.apply ev).bg
+  return w
+
+def showFail : Fail → String
+  | .err "notfound" => "notfound"
+  | .err _ => "err"
+  | .panic _ => "panic"
+
+/-- sizes (number of entries) of the records of an address, newest first -/
+partial def chainSizes (file : Gsfa.Bytes) (p : Ptr) (acc : List Nat) (fuel : Nat) : List Nat :=
+  if p.isZero || fuel = 0 then acc.reverse else
+  match readWithSize Zid file p.off p.size with
+  | .ok (es, nn) => chainSizes file nn (es.length :: acc) (fuel - 1)
+  | .error _ => (0 :: acc).reverse
+
+structure L where
+  st : LogSt Hh := LogSt.init
+  table : List (Gsfa.Bytes × Gsfa.Bytes) := []   -- (raw, compressed)
+
+def L.z (l : L) : Zstd :=
+  ⟨fun raw => match l.table.find? (fun t => t.1 == raw) with | some t => t.2 | none => raw,
+   fun z => match l.table.find? (fun t => t.2 == z) with | some t => some t.1 | none => none⟩
+
+structure S where
+  w : W := {}
+  l : L := {}
+
+def stepLine (s : S) (line : String) : S × String :=
+  match words line with
+  | "case" :: _ => (s, "ok")
+  | ["params", b, p, c, k, m, t, r] =>
+    ({ s with w := { p := ⟨b.toNat!, p.toNat!, k.toNat!, m.toNat!, t.toNat!, r.toNat!⟩, cap := c.toNat! } }, "ok")
+  | ["sched", "lazy"] => ({ s with w := { s.w with sched := .lazy } }, "ok")
+  | ["sched", "eager"] => ({ s with w := { s.w with sched := .eager } }, "ok")
+  | ["sched", "rand", seed] => ({ s with w := { s.w with sched := .rand seed.toNat! } }, "ok")
+  | ["push", slot, off, size, flags, addrs] =>
+    let e : Entry := ⟨UInt64.ofNat off.toNat!, UInt64.ofNat size.toNat!, UInt64.ofNat slot.toNat!, UInt8.ofNat flags.toNat!⟩
+    ({ s with w := s.w.push ⟨slot.toNat!, parseAddrs addrs, e⟩ }, "ok")
+  | ["close"] =>
+    match index Ah Rh Hh Zid s.w.p s.w.evs.toList with
+    | .ok idx => ({ s with w := { s.w with idx := some idx, file := idx.file } }, "ok")
+    | .error f => ({ s with w := { s.w with idx := none } }, showFail f)
+  | ["get", a, limit] =>
+    match s.w.idx with
+    | none => (s, "noindex")
+    | some idx =>
+      match readerGetF Zid s.w.file idx.heads idx.rrecs.length a.toNat! limit.toNat! with
+      | .ok es =>
+        let sizes := chainSizes s.w.file (Hh.get idx.heads a.toNat!) [] (idx.rrecs.length + 1)
+        (s, s!"ok n={es.length} chain={",".intercalate (sizes.map toString)} {showEntries es}".trimAsciiEnd.toString)
+      | .error f => (s, showFail f)
+  | ["newlog"] => ({ s with l := {} }, "ok")
+  | ["put", a, po, ps, z, ents] =>
+    let es := parseEntries ents
+    let zb := unhex ((z.drop 2).toString)
+    let raw := encEntries es.reverse
+    let l := { s.l with table := (raw, zb) :: s.l.table }
+    let st0 : LogSt Hh := { l.st with heads := Hh.set l.st.heads a.toNat! ⟨po.toNat!, ps.toNat!⟩ }
+    match flushRec l.z st0 (a.toNat!, es) with
+    | .error f => (s, showFail f)
+    | .ok st1 =>
+      if es.isEmpty then ({ s with l := { l with st := st1 } }, "skipped") else
+      let r := st1.rrecs.headD []
+      ({ s with l := { l with st := st1 } }, s!"ok {l.st.off} {(Hh.get st1.heads a.toNat!).size} {hex r}")
+  | ["read", off, size] =>
+    match readWithSize s.l.z s.l.st.file off.toNat! size.toNat! with
+    | .ok (es, nn) => (s, s!"ok next={nn.off}:{nn.size} n={es.length} {showEntries es}".trimAsciiEnd.toString)
+    | .error f => (s, showFail f)
+  | _ => (s, "bad-op")
+
 def run (lines : Array String) : IO Unit := do
   let out ← IO.getStdout
-  for _ in lines do
-    out.putStrLn "unimplemented"
+  let mut s : S := {}
+  for l in lines do
+    let (s', o) := stepLine s l
+    s := s'
+    out.putStrLn o
 
 end DrvC06
